@@ -1,9 +1,58 @@
 (* Property C08 — Shortest-path options restrict the answer but never change it.
-   Only pinned statements; proofs live in Proofs/ShortestPathOk.v (spec level)
-   and Proofs/DijkstraEntryOk.v (entry points of the model). *)
+   Only pinned statements; proofs live in Proofs/ShortestPathOk.v (spec level) and
+   Proofs/DijkstraModelOk.v (the transcribed algorithm). *)
 From Coq Require Import List Bool ZArith QArith.
+From GV Require Import Base.Outcome Model.GState Model.Query Model.Dijkstra.
 From GV Require Import Spec.ShortestPathDef Spec.ShortestPathCheck Proofs.ShortestPathOk.
+From GV Require Import Proofs.DijkstraLoopOk Proofs.DijkstraModelOk Proofs.InvolvingOk.
 Import ListNotations.
+
+(* ---------------------------------------------------------------- the model *)
+
+(* Two runs of the transcribed [dijkstra] from the same source, one with options
+   (target, cutoff, first_only, with_paths) and one unrestricted: every reported
+   entry of the restricted run is an entry of the unrestricted run with the same
+   distance, within the cutoff; conversely every unrestricted entry within the
+   cutoff is reported when there is no target, and the target's entry is. *)
+Theorem C08_model_options_restrict : forall (T A : Type) (g : gstate T A) (weighted : bool) (src : nat),
+  nonneg (wgraph_of weighted (successors_vec g)) ->
+  length (successors_vec g) = number_of_nodes g ->
+  forall (target : option nat) (cutoff : option Q) (fo wp fo0 wp0 : bool) (r r0 : list (nat * spinfo nat)),
+  cutoff_exceeded cutoff 0 = false ->
+  dijkstra g weighted src target cutoff fo wp = Ok r ->
+  dijkstra g weighted src None None fo0 wp0 = Ok r0 ->
+  (forall t i, In (t, i) r ->
+     exists i0, In (t, i0) r0 /\ sp_distance i0 = sp_distance i /\ within cutoff (sp_distance i)) /\
+  (forall t i0, In (t, i0) r0 -> within cutoff (sp_distance i0) ->
+     (target = None \/ target = Some t) ->
+     exists i, In (t, i) r /\ sp_distance i = sp_distance i0).
+Proof. exact @model_options_restrict. Qed.
+
+(* The distance-only fast path (all options off) and the full algorithm report the
+   same nodes with the same distances — the dispatch [can_use_basic] is harmless. *)
+Theorem C08_model_fast_path_agrees : forall (T A : Type) (g : gstate T A) (weighted : bool) (src : nat),
+  nonneg (wgraph_of weighted (successors_vec g)) ->
+  length (successors_vec g) = number_of_nodes g ->
+  forall (fo wp : bool) (rb r : list (nat * spinfo nat)),
+  dijkstra_basic g weighted src = Ok rb ->
+  dijkstra g weighted src None None fo wp = Ok r ->
+  forall t x, (exists i, In (t, i) rb /\ sp_distance i = x) <-> (exists i, In (t, i) r /\ sp_distance i = x).
+Proof. exact @model_fast_path_agrees. Qed.
+
+(* get_all_shortest_paths_involving(x) keeps exactly the all-pairs entries that have a
+   path with x strictly inside (the slice test path[1..len-1].contains(x)); the all-pairs
+   entries themselves are characterised per source by C04_model_dijkstra_total. *)
+Theorem C08_model_involving_filter : forall (T A : Type) (teqb : T -> T -> bool),
+  (forall a b, teqb a b = true <-> a = b) ->
+  forall threads (g : gstate T A) (x : T) (weighted : bool) l pairs,
+  all_pairs teqb threads g weighted None None false true = Ok pairs ->
+  get_all_shortest_paths_involving teqb threads g x weighted = Ok l ->
+  forall spi, In spi l <->
+    (exists s t, exists m, In (s, m) pairs /\ In (t, spi) m) /\
+    exists p, In p (sp_paths spi) /\ inside x p.
+Proof. exact @involving_spec. Qed.
+
+(* ---------------------------------------------------------------- spec level *)
 
 (* Any answer [r] with options that meets the per-call statement is a
    restriction of any unrestricted all-paths answer [r0] that meets it: same
